@@ -1047,13 +1047,13 @@ def spec_react_delimiter(fns, consts):
     the split iterator is mapped to owned strings and extended into the new value list with no filter
     in between, the delimiter being the arg's `get_value_delimiter()`; a value without the delimiter
     (or a trailing value exempt from splitting) is pushed unchanged."""
-    con = contracts.Contracts(fns, default_pure=True)
+    con = contracts.Contracts(fns, default_pure=True, option_eq=True)
     ctx = symex.Ctx(consts, con)
     fn = _find(fns, "parser/parser.rs", "react")
     ex = symex.Exec(ctx, fn, [("opq", "self"), ("opq", "ident"), ("opq", "source"), ("opq", "arg"), ("opq", "raw_vals"), ("opq", "trailing_idx"), ("opq", "matcher")])
     ex.run(havoc_unassigned=True, cut_loops=True)
     obs = []
-    n_split = n_push = 0
+    n_split = n_push = n_exempt = 0
     paths = [(pc, env.get("#callargs", ())) for pc, env in ex.cuts] + [(pc, ca) for (pc, _), ca in zip(ex.returns, ex.return_callargs)]
     for pc, ca in paths:
         splits = [c for c in ca if re.search(r"OsStrExt>::split$", c[0])]
@@ -1067,6 +1067,30 @@ def spec_react_delimiter(fns, consts):
             obs.append({"fn": fn.name, "block": "loop", "kind": "spec", "target": "react_delimiter", "msg": "a delimited value contributes every piece of split(value, declared delimiter), unfiltered",
                         "pc": list(pc), "neg": "false" if ok else "true"})
         n_push += any(re.search(r"^Vec::<OsString>::push$", c[0]) for c in ca)
+        # (the trailing-value exemption is decided by the solver below, on the loop's back-edge states)
+    # dont_delimit_trailing_values: a value CONTAINING the delimiter is kept whole exactly when the setting is on
+    # and the value sits at or after the first trailing index (i >= trailing_idx); otherwise it is split.
+    for pc, env in ex.cuts:
+        ca = env.get("#callargs", ())
+        cont = [c for c in ca if re.search(r"OsStrExt>::contains$", c[0])]
+        nxt = [c for c in ca if re.search(r"^<Enumerate<std::vec::IntoIter<OsString>> as Iterator>::next$", c[0])]
+        if not cont or not nxt or ctx.keys.get(cont[-1][2]) not in pc:
+            continue
+        whole = any(re.search(r"^Vec::<OsString>::push$", c[0]) and c[1][1].endswith("@Some.0.1") for c in ca)
+        split = any(re.search(r"OsStrExt>::split$", c[0]) for c in ca)
+        if whole == split:
+            continue
+        dd = ex.typed_fresh("command::Command::is_dont_delimit_trailing_values_set(self.0)", "bool")[1]
+        some_t, t = contracts.Contracts.opt_parts(ex, env["_6"])
+        i = ex.typed_fresh(nxt[-1][2] + "@Some.0.0", "usize")[1]
+        exempt = f"(and {dd} {some_t} (bvule {t} {i}))" if t is not None else "false"
+        n_exempt += whole
+        obs.append({"fn": fn.name, "block": "loop", "kind": "spec", "target": "react_delimiter",
+                    "msg": ("a value containing the delimiter is kept whole only under dont_delimit_trailing_values at or after the first trailing index" if whole
+                            else "under dont_delimit_trailing_values a value at or after the first trailing index is never split"),
+                    "pc": list(pc), "neg": f"(not {exempt})" if whole else exempt})
+    if n_exempt == 0:
+        obs.append({"fn": fn.name, "block": "shape", "kind": "spec", "target": "react_delimiter", "msg": "no path keeps a trailing value whole under dont_delimit_trailing_values", "pc": [], "neg": "true"})
     if n_split == 0 or n_push == 0:
         obs.append({"fn": fn.name, "block": "shape", "kind": "spec", "target": "react_delimiter", "msg": "react's delimiter block no longer has the reference shape (split / push paths not found)", "pc": [], "neg": "true"})
     for o in obs:
@@ -1188,3 +1212,46 @@ def spec_help_possible_values(fns, consts):
 
 
 SPECS["C12"].append(spec_help_possible_values)
+
+
+# ------------------------------------------------------------------ C02/C08: a pending hyphen-value argument wins over flag recognition
+
+def spec_hyphen_value_guard(fns, consts):
+    """Parser::parse_long_arg and Parser::parse_short_arg: when the argument currently being filled -
+    an option (ParseState::Opt) OR a positional (ParseState::Pos) - allows hyphen values, a
+    flag-looking token is returned as MaybeHyphenValue BEFORE any key lookup, in both classifiers."""
+    con = contracts.Contracts(fns, default_pure=True)
+    ctx = symex.Ctx(consts, con)
+    obs, enc = [], []
+    for fname in ("parse_long_arg", "parse_short_arg"):
+        fn = _find(fns, "parser/parser.rs", fname)
+        args = [("opq", "self")] + [("opq", n if n != "_" else f"p{i}") for i, n in enumerate(["matcher", "a2", "a3", "parse_state", "a5", "a6", "a7"][:len(fn.params) - 1])]
+        # the parse_state parameter is the one typed &ParseState
+        names = []
+        for i, (loc, ty) in enumerate(fn.params):
+            names.append("self" if i == 0 else ("parse_state" if "ParseState" in ty else f"{fname}_a{i}"))
+        ex = symex.Exec(ctx, fn, [("opq", n) for n in names])
+        ex.run(havoc_unassigned=True, cut_loops=True)
+        found = {"Opt": 0, "Pos": 0}
+        for (pc, val), calls in zip(ex.returns, ex.return_calls):
+            for variant in ("Opt", "Pos"):
+                hy = [ctx.keys[k] for k in ctx.keys if re.search(r"^Arg::is_allow_hyphen_values_set\(.*parse_state@" + variant + r"\.0\)\)$", k)]
+                hit = [h for h in hy if h in pc]
+                if not hit:
+                    continue
+                found[variant] += 1
+                looked = any(re.search(r"MKeyMap::get(::<.*>)?$", c) for c in calls)
+                is_maybe = val[0] == "enum" and val[1] == "Ok" and val[2] is not None and "MaybeHyphenValue" in symex.Exec.key(ex, val[2])
+                obs.append({"fn": fn.name, "block": "ret", "kind": "spec", "target": "hyphen_value_guard",
+                            "msg": f"{fname}: pending {variant} that allows hyphen values => MaybeHyphenValue before any key lookup", "pc": list(pc), "neg": "false" if (is_maybe and not looked) else "true"})
+        for variant, n in found.items():
+            if n == 0:
+                obs.append({"fn": fn.name, "block": "shape", "kind": "spec", "target": "hyphen_value_guard", "msg": f"{fname}: no path gives a pending {variant} argument with allow_hyphen_values precedence", "pc": [], "neg": "true"})
+        enc.append(_enc(fn, ex, len(ex.returns)))
+    for o in obs:
+        o.setdefault("target", "hyphen_value_guard")
+    return ctx, obs, enc, con
+
+
+SPECS["C02"].append(spec_hyphen_value_guard)
+SPECS["C08"].append(spec_hyphen_value_guard)
